@@ -47,7 +47,7 @@ func init() {
 		ID:    "C15",
 		Level: "exploration",
 		Rule: "four monitors on one mem.FS shared by several goroutines, each with its own handles. (free) 4..16 goroutines x 50..300 operations from the C01/C02 alphabets over <=4 names run freely under the race detector (GORACE log, reports de-duplicated by the innermost library function pair; any report with a hackpadfs frame is a violation), panics are caught, a stall is decided by watchdog + goroutine dump. " +
-			"(porcupine) per-goroutine handles on existing files issue WriteAt(0, unique fixed-width value) / ReadAt(0, width) with call/return stamps from one logical clock; the recorded history is checked for linearizability against a register-per-file model (partitioned by file). (sched) small programs of 2..3 goroutines x 1..3 operations on <=4 names run under a cooperative scheduler that owns every transaction boundary of the real mem store: all interleavings when few, otherwise bounded-preemption and random walks; the result vector plus final tree must equal that of some sequential order of the same operations, and goroutines on disjoint subtrees must see their solo results. " +
+			"(porcupine) per-goroutine handles on existing files issue WriteAt(0, unique fixed-width value) / ReadAt(0, width) with call/return stamps from one logical clock; the recorded history is checked for linearizability against a register-per-file model (partitioned by file). (sched) small programs of 2..3 goroutines x 1..3 operations on <=4 names run under a cooperative scheduler that owns every transaction boundary of the real mem store: all interleavings when few, otherwise bounded-preemption and random walks; the result vector plus final tree must equal that of some sequential order of the same operations, and goroutines on disjoint subtrees must see their solo results; programs in which goroutines only create (MkdirAll of overlapping chains) are judged by what each goroutine finds after its own MkdirAll returned nil: the whole chain, under every schedule. " +
 			"(hammer) tight loops aimed at windows narrower than a store transaction: 2..5 readers (ReadAt/Read of random ranges) and 1..2 positional writers (64 B .. 32 KiB at offsets 0, 1, 512, 5000) against a goroutine that shrinks (Truncate(0), Truncate(small), O_TRUNC re-open) and re-grows the same file, each through its own handle: no panic, no stall, n within bounds, only bytes some writer wrote (or zero fill); and 1..3 writers that after each of their own completed Mkdir/WriteFullFile/Rename/Remove check that their own listing and Stat reflect it while 1..3 observers list and stat in a loop, in one shared or in disjoint directories; at quiescence the listings must equal exactly what the writers completed and the tree must be well formed; a renamer moving a regular file along a chain of names while observers stat the new and then the old name of a link (both present is a state no order has); two goroutines copying between two files in opposite directions through the handles' blob interface (no deadlock, whole copies only); an appender against observers that learn the size twice in a row through two of four routes (handle Stat, Stat by name, ReadFile, Seek to end): never less the second time. " +
 			"Non-trivial: free programs with >=2 goroutines hitting one name, histories with concurrent overlapping operations, schedules with >=1 preemption; distinct by case",
 		Assumptions: []string{"interleavings are controlled at store-transaction granularity; finer-grained races are the race detector's job on the schedules that happened", "check-then-act namespace operations are known not to be atomic (F46): the scheduled monitor lists them by program shape"},
